@@ -13,6 +13,8 @@ SPEC = {
     ],
     "engines": [
         {"name": "silmerge", "pkg": "./silmerge", "search_cases": 20000},
+        # "a silence created or expired through any instance's API is eventually effective on every connected instance": effectiveness of merged versions is the mute verdict of C02's engine
+        {"name": "silencer", "pkg": "./silencer", "search_cases": 6000, "quick_cases": 1200},
     ],
     "rule": "random op sequences on 2-3 real silence.Silences (+ Silencer) under synctest virtual time: local Set (create / compatible and "
             "incompatible edit, among them every one-component variation of the matcher sets) and Expire whose broadcasts are captured into a pool, scripted channel delivering pool entries "
